@@ -428,3 +428,54 @@ VARIANTS += [
     V("c08-b3", "C08", "ucb", "_UCB1._uptake_new_arm", "self.arm_to_sum[arm] = 0\nself.arm_to_count[arm] = 0",
       "self.arm_to_count[arm] = 0\nself.arm_to_sum[arm] = 0", benign=True),
 ]
+
+# ---------------------------------------------------------------------------------------------------- C15
+VARIANTS += [
+    V("c15-m1", "C15", "simulator", "_RadiusSimulator._predict_contexts",
+      "indices = np.where(distances_to_row <= self.radius)", "indices = np.where(distances_to_row < self.radius)",
+      "R15.1", why="simulator excludes the radius boundary, the library includes it"),
+    V("c15-m2", "C15", "simulator", "_KNearestSimulator._predict_contexts",
+      "indices = np.argpartition(distances_to_row, self.k - 1)[:self.k]",
+      "indices = np.argpartition(distances_to_row, self.k)[:self.k]", "R15.1",
+      why="different partition pivot than the library"),
+    V("c15-m3", "C15", "simulator", "_KNearestSimulator._predict_contexts", "lp = deepcopy(self.lp)", "lp = self.lp",
+      "R15.4", why="simulator trains the shared policy instead of a copy"),
+    V("c15-m4", "C15", "simulator", "Simulator._train_bandits",
+      "mab = _KNearestSimulator(imp.rng, imp.arms, imp.n_jobs, imp.backend, imp.lp, imp.k, imp.metric, "
+      "is_quick=self.is_quick)",
+      "mab = _KNearestSimulator(imp.rng, imp.arms, imp.n_jobs, imp.backend, imp.lp, imp.k, 'euclidean', "
+      "is_quick=self.is_quick)", "R15.6", why="metric of the replaced bandit dropped"),
+    V("c15-m5", "C15", "simulator", "Simulator._offline_test_bandits",
+      "if mab.metric not in distances:\n    distances[mab.metric] = mab.calculate_distances(chunk_contexts)\n"
+      "else:\n    mab.set_distances(distances[mab.metric])",
+      "if not distances:\n    distances[0] = mab.calculate_distances(chunk_contexts)\n"
+      "else:\n    mab.set_distances(distances[0])", "R15.3",
+      why="distance cache shared across metrics (the repaired defect)"),
+    V("c15-m6", "C15", "simulator", "_LSHSimulator._add_neighbors",
+      "neighbors = np.where(hash_values == h)[0] + context_start",
+      "neighbors = np.where(hash_values == h)[0] + context_start - 1", "R15.5",
+      why="simulator's LSH index offset differs from the library's"),
+    V("c15-m7", "C15", "simulator", "_RadiusSimulator._predict_contexts",
+      "distances_to_row = self.distances[start_index + index]", "distances_to_row = self.distances[index]", "R15.1",
+      why="workers other than the first read another row's distances"),
+    V("c15-m8", "C15", "simulator", "_NeighborsSimulator._get_nhood_predictions",
+      "lp.fit(nn_decisions, nn_rewards, self.contexts[indices])",
+      "lp.fit(nn_decisions, nn_rewards, self.contexts)", "R15.4",
+      why="policy trained on all contexts instead of the neighbourhood"),
+    V("c15-m9", "C15", "simulator", "_NeighborsSimulator._calculate_distances_of_batch",
+      "distances[index] = cdist(self.contexts, row_2d, metric=self.metric).reshape(-1)",
+      "distances[index] = cdist(self.contexts, row_2d).reshape(-1)", "R15.1",
+      why="cached distances ignore the configured metric"),
+    V("c15-m10", "C15", "simulator", "_NeighborsSimulator._get_nhood_predictions",
+      "prediction = lp.predict(row_2d)\nif isinstance(lp, _ThompsonSampling):\n    "
+      "arm_to_expectation = lp.arm_to_expectation.copy()\nelse:\n    "
+      "arm_to_expectation = lp.predict_expectations(row_2d)",
+      "if isinstance(lp, _ThompsonSampling):\n    arm_to_expectation = lp.arm_to_expectation.copy()\nelse:\n    "
+      "arm_to_expectation = lp.predict_expectations(row_2d)\nprediction = lp.predict(row_2d)", "R15.4",
+      why="expectations drawn before the prediction shift the random stream"),
+    V("c15-b1", "C15", "simulator", "_RadiusSimulator._predict_contexts",
+      "indices = np.where(distances_to_row <= self.radius)",
+      "within = distances_to_row <= self.radius\nindices = np.where(within)", benign=True),
+    V("c15-b2", "C15", "simulator", "_LSHSimulator._get_neighbors", "indices = list()", "indices = list()\npass",
+      benign=True),
+]
